@@ -136,3 +136,70 @@ package db19
 //@   loop 1 invariant frame()
 //@   loop 1 invariant 0 <= lo && (lo == hi ==> hi == 0) && lo <= hi && hi < len(offsets) && state != nil && goodAt(scanOff(hi)) && (lo < hi ==> !goodAt(scanOff(lo))) && (forall k :: 0 <= k && k < len(offsets) ==> offsets[k] == scanOff(k))
 //@   loop 1 decreases hi - lo
+
+//@ property C44
+// ---- triggers -----------------------------------------------------------------------------------------
+// A trigger is Suneido code run through Thread.Call (core.gCalls counts those calls). disabled[table]
+// counts how many more times the table's trigger has been disabled than enabled.
+//@ func (t *triggers) enabled(table) (r)
+//@   requires t != nil
+//@   ensures! r <==> t.disabled[table] == 0
+//@ func (t *triggers) DisableTrigger(table)
+//@   requires t != nil && t.disabled[table] < 1000000000
+//@   modifies t.disabled, elems(t.disabled)
+//@   ensures! counted: t.disabled[table] == old(t.disabled[table]) + 1
+//@ func (t *triggers) EnableTrigger(table)
+//@   requires t != nil && t.disabled != nil && t.disabled[table] > -1000000000
+//@   modifies elems(t.disabled)
+//@   panics_if t.disabled[table] <= 0
+//@   ensures! counted: t.disabled[table] == old(t.disabled[table]) - 1
+
+// call2: a disabled trigger is not called; an enabled one is called at most once (exactly once when the
+// trigger function exists); an exception thrown by the trigger leaves call2 as a panic (it is wrapped,
+// never swallowed)
+//@ func (t *triggers) call2(th, tran, table, oldrec, newrec)
+//@   nosafety
+//@   requires t != nil
+//@   modifies all, gCalls, gBlockThrew, gBlockRet
+//@   ghost found bool = fn != nil
+//@   ensures! disabled_not_called: old(t.disabled[table]) != 0 ==> gCalls == old(gCalls)
+//@   ensures! enabled_called_once: old(t.disabled[table]) == 0 ==> gCalls == old(gCalls) + (found ? 1 : 0)
+//@   ensures! exception_not_swallowed: !recovered()
+//@   on_panic only_from_the_trigger: gCalls == old(gCalls) + 1 && old(t.disabled[table]) == 0
+
+// CallTrigger is the one place row changes are announced from: gDispatch counts its calls (the 'defines'
+// clause below is that definition). It passes the change on to call2, which decides (see above) whether the
+// trigger runs; MakeSuTran is an injected function variable and is not under contract, so 'disabled is still
+// what it was when call2 looks at it' is not provable here and is not claimed at this level.
+//@ ghost var gDispatch int
+//@ func (t *triggers) CallTrigger(th, tran, table, oldrec, newrec)
+//@   nosafety
+//@   requires t != nil
+//@   modifies all, gCalls, gBlockThrew, gBlockRet, gDispatch
+//@   defines gDispatch == old(gDispatch) + 1
+//@   ensures! at_most_once: gCalls == old(gCalls) || gCalls == old(gCalls) + 1
+//@   ensures! exception_not_swallowed: !recovered()
+
+// Every row change announces itself: a normal return of Output, Delete or update (unless the database is
+// marked corrupted or the update leaves the row unchanged) has gone through CallTrigger - after the change
+// was made, so an exception from the trigger leaves the function as a panic and the caller's transaction
+// is not committed. Cascaded deletes/updates go through Delete/update again and are counted by them.
+//@ func (t *UpdateTran) Output(th, table, rec0)
+//@   nosafety
+//@   maypanic
+//@   requires t != nil && t.db != nil
+//@   modifies all, gCalls, gBlockThrew, gBlockRet, gDispatch
+//@   ensures! announced: old(t.db.corrupted.v) == 0 ==> gDispatch == old(gDispatch) + 1
+//@ func (t *UpdateTran) Delete(th, table, off)
+//@   nosafety
+//@   maypanic
+//@   requires t != nil && t.db != nil
+//@   modifies all, gCalls, gBlockThrew, gBlockRet, gDispatch
+//@   ensures! announced: gDispatch >= old(gDispatch) + 1
+//@ func (t *UpdateTran) update(th, table, oldoff, newrec0, block) (r)
+//@   nosafety
+//@   maypanic
+//@   requires t != nil && t.db != nil
+//@   modifies all, gCalls, gBlockThrew, gBlockRet, gDispatch
+//@   ghost same bool = newrec == oldrec
+//@   ensures! announced: old(t.db.corrupted.v) == 0 && !same ==> gDispatch >= old(gDispatch) + 1
